@@ -1109,8 +1109,12 @@ where
 
         // Memoised results may depend on the set of variables (e.g., the
         // Boolean-function view of ZBDDs), so the apply cache is invalidated
-        // like for a reordering.
-        self.data.pre_gc(self);
+        // like for a reordering (unless we are inside a `reorder()` closure,
+        // where this has been done already).
+        let prepared = self.reorder_gc_prepared;
+        if !prepared {
+            self.data.pre_gc(self);
+        }
         self.data.pre_reorder(self);
         MD::pre_reorder_mut(self);
 
@@ -1125,8 +1129,10 @@ where
 
         self.data.post_reorder(self);
         MD::post_reorder_mut(self);
-        // SAFETY: We called `pre_gc`, the variables are added.
-        unsafe { self.data.post_gc(self) };
+        if !prepared {
+            // SAFETY: We called `pre_gc`, the variables are added.
+            unsafe { self.data.post_gc(self) };
+        }
 
         range
     }
@@ -1138,8 +1144,12 @@ where
     ) -> Result<Range<VarNo>, DuplicateVarName> {
         // Memoised results may depend on the set of variables (e.g., the
         // Boolean-function view of ZBDDs), so the apply cache is invalidated
-        // like for a reordering.
-        self.data.pre_gc(self);
+        // like for a reordering (unless we are inside a `reorder()` closure,
+        // where this has been done already).
+        let prepared = self.reorder_gc_prepared;
+        if !prepared {
+            self.data.pre_gc(self);
+        }
         self.data.pre_reorder(self);
         MD::pre_reorder_mut(self);
 
@@ -1160,8 +1170,10 @@ where
 
             this.data.post_reorder(this);
             MD::post_reorder_mut(this);
-            // SAFETY: We called `pre_gc`, the variables are added.
-            unsafe { this.data.post_gc(this) };
+            if !prepared {
+                // SAFETY: We called `pre_gc`, the variables are added.
+                unsafe { this.data.post_gc(this) };
+            }
         });
 
         let mut names = names.into_iter();
@@ -1187,8 +1199,12 @@ where
 
         // Memoised results may depend on the set of variables (e.g., the
         // Boolean-function view of ZBDDs), so the apply cache is invalidated
-        // like for a reordering.
-        self.data.pre_gc(self);
+        // like for a reordering (unless we are inside a `reorder()` closure,
+        // where this has been done already).
+        let prepared = self.reorder_gc_prepared;
+        if !prepared {
+            self.data.pre_gc(self);
+        }
         self.data.pre_reorder(self);
         MD::pre_reorder_mut(self);
 
@@ -1204,8 +1220,10 @@ where
 
         self.data.post_reorder(self);
         MD::post_reorder_mut(self);
-        // SAFETY: We called `pre_gc`, the variables are added.
-        unsafe { self.data.post_gc(self) };
+        if !prepared {
+            // SAFETY: We called `pre_gc`, the variables are added.
+            unsafe { self.data.post_gc(self) };
+        }
 
         Ok(0..n)
     }
